@@ -199,9 +199,9 @@ class PeriodicSensor(Sensor):
 
     def _periodic_sense(self):
         self.data['time'].append(self._env.now)
-        self.sense()
         if len(self.data['time']) > self._data_capacity:
             self.data['time'].pop(0)  # keep aligned with the probe data
+        self.sense()
         self._schedule_next_sense()
 
     def _schedule_next_sense(self):
